@@ -353,6 +353,54 @@ func (m *c08Step) ruleSend(t *rapid.T) {
 	m.settle()
 }
 
+// ruleSecondSend: a second Send is issued while the first is still delivering. It has to wait for the first one (all
+// receivers registered when it starts are the first Send's business): when it returns the registered count is zero,
+// and as nobody registered for it it returns 0. The second Send parks on the caster's lock, so this is a compound
+// step: launch it, look (without declaring quiescence), then let the first Send finish and settle.
+func (m *c08Step) ruleSecondSend(t *rapid.T) {
+	if !m.sending() || m.sendR0-m.served-m.absorbed <= 0 {
+		t.Skip("no Send in its delivery phase")
+	}
+	for _, s := range m.slots {
+		if s.round == m.round && s.state != "idle" && s.state != "receiving" && s.state != "received" && s.state != "gone" {
+			t.Skip("a counted receiver is busy")
+		}
+	}
+	m.nextVal++
+	v2 := m.nextVal
+	x := m.x
+	op := vkit.Launch("Send#2", func() any { return x.Send(v2) })
+	for i := 0; i < 300; i++ {
+		runtime.Gosched()
+	}
+	if op.Finished() && op.Panic == nil {
+		if n := x.Add(0); n != 0 {
+			m.fail("C08/count-after-send", "a second Send(%d) returned %v while the first Send is still delivering; right after it returned Add(0)=%d (after Send returns the registered count is zero)", v2, op.Res, n)
+		}
+	}
+	m.tr("send#2(%d) during send...", v2)
+	for _, s := range m.slots {
+		if s.state == "idle" && s.round == m.round {
+			m.startReceive(s)
+		}
+	}
+	m.settle()
+	if m.sending() {
+		m.fail("C08/send-hang", "the first Send did not finish although every counted receiver is receiving")
+	}
+	if !op.Finished() {
+		m.fail("C08/send-hang", "the second Send is still blocked after the first one returned, with nobody registered")
+	}
+	if op.Panic != nil {
+		m.fail("C08/send-panic", "the second Send panicked although nobody broke the contract: %v", op.Panic)
+	}
+	if op.Res.(int) != 0 {
+		m.fail("C08/send-count", "the second Send returned %v; nobody was registered for it", op.Res)
+	}
+	m.tr("...send#2=0")
+	m.settle()
+}
+
 func (m *c08Step) ruleAdd0(t *rapid.T) {
 	res, pv := vkit.Call(func() any { return m.x.Add(0) })
 	if pv != nil {
@@ -387,6 +435,7 @@ func TestC08CasterStep(t *testing.T) {
 			add("deregister", 2, m.ruleDeregister)
 			add("send", 3, m.ruleSend)
 			add("add0", 1, m.ruleAdd0)
+			add("secondSend", 2, m.ruleSecondSend)
 			add("advance", 1, func(t *rapid.T) { // time passes while nothing else happens: ChanCaster has no notion of time
 				d := rapid.SampledFrom([]time.Duration{time.Millisecond, 3 * time.Second, 24 * time.Hour}).Draw(t, "advance")
 				time.Sleep(d)
